@@ -110,3 +110,21 @@ def structured_table(k, variant, seed=0):
         out.append((nid, a))
     assert len({x for x, _ in out}) == k and len({y for _, y in out}) == k
     return out
+
+
+def parse_file(data, fmt):
+    """independent reader of a saved lease table -> [(id, address)] or None if the bytes are not a table.
+    json: one object, keys = node ids as decimal strings, values = addresses; bin: TMRh20's dhcplist.txt records
+    (uint8 id, one pad byte, uint16 little-endian address)"""
+    if fmt == "json":
+        import json
+        try:
+            obj = json.loads(bytes(data).decode("utf-8"))
+            if not isinstance(obj, dict):
+                return None
+            return [(int(k), v) for k, v in obj.items()]
+        except (ValueError, TypeError):
+            return None
+    if len(data) % 4:
+        return None
+    return [(data[i], data[i + 2] | (data[i + 3] << 8)) for i in range(0, len(data), 4)]
